@@ -287,13 +287,14 @@ def s4(chk: Check, proj: Project) -> None:
            "the key identifies the Template class by its import path" if cls_ok else f"the Template class enters the key as `{cls_part}`: two different classes with the same bare name share entries, a caller gets an instance of the wrong class")
     chk.ob("S4", "template:cached_template:key-has-engine-class", m.loc(f), eng_ok, "the key identifies the engine class by its import path")
     # hit returns the stored object
-    hitv = assignments(f, "template")
+    retn = next((norm(r.value) for r in stmts(f) if isinstance(r, ast.Return) and isinstance(r.value, ast.Name)), "template")
+    hitv = assignments(f, retn)
     got = norm(enclosing_stmt(g[0]).targets[0]) if isinstance(enclosing_stmt(g[0]), ast.Assign) else (norm(enclosing_stmt(g[0]).target) if isinstance(enclosing_stmt(g[0]), ast.AnnAssign) else None)
     ok = any(v is not None and norm(v) == got for _s, v in hitv) and any(isinstance(v, ast.Call) and norm(v.func) == "template_cls" for _s, v in hitv)
     chk.ob("S4", "template:cached_template:hit-returns-stored", m.loc(g[0]), ok, f"a hit returns the object the cache returned (`{got}`), a miss compiles with template_cls(...)")
     stv = norm(s_[0].args[1]) if len(s_[0].args) > 1 else None
     at = cond_atoms(enclosing_stmt(s_[0]))
-    okm = stv == "template" and any(pol and t == f"{got} is None" for t, pol in at)
+    okm = stv == retn and any(pol and t == f"{got} is None" for t, pol in at)
     chk.ob("S4", "template:cached_template:store-on-miss", m.loc(s_[0]), okm, "the compiled template is stored on a miss")
 
 
